@@ -215,7 +215,11 @@ def tie_cases(ctx, tie, gen_deep):
     out = []
     if not tie.changed():
         return out
-    ch = [k for k in tie.changed() if k in KERNEL_LAYS] or (list(KERNEL_LAYS) if tie.changed() else [])   # (context changed: all)
+    ch = [k for k in tie.changed() if k in KERNEL_LAYS]
+    if "context" in tie.changed():
+        ch = list(KERNEL_LAYS)
+    if "morton_pdep" in tie.changed():
+        ch.append("morton_index")          # (its layouts: mortonT, mortonF)
     lays = {l for k in ch for l in KERNEL_LAYS[k]}
     out += [c for c in gen_deep() if c[1] in lays]
     for k in [k for k in tie.changed() if k in KERNEL_LAYS]:
@@ -234,7 +238,7 @@ def tie_cases(ctx, tie, gen_deep):
 
 def run(ctx):
     cases = gen(ctx)
-    tie = T.Tie(ctx, list(KERNEL_LAYS) + ["context"])
+    tie = T.Tie(ctx, list(KERNEL_LAYS) + ["context", "morton_pdep"])
 
     class Deep:
         quick, seed = False, ctx.seed
